@@ -16,7 +16,7 @@ TASK: produce a realistic change to the library source (not to tests) that BREAK
  (2) the whole existing test suite still passes: `cargo test --workspace --no-fail-fast --offline` (the `tck_harness` test target fails to start on the unchanged tree as well because its feature files are absent — ignore that one target; everything else, 506 tests, must still pass);
  (3) the breakage needs something SPECIFIC to manifest — a particular interleaving, a crash or I/O fault at a particular point, a multi-step sequence of operations, an unusual input or value, or two cooperating code sites that each look fine alone. It must NOT be something ordinary use would expose at once.
 {hint}
-Lines guarded by `#[cfg(nervusdb_verif)]` are inert instrumentation: do not modify, remove or rely on them, and do not put your change inside such a guard. Keep the change small (a few lines, at most two sites) and make it look like an honest mistake, not sabotage.
+Lines guarded by `#[cfg(nervusdb_verif)]` are inert instrumentation: do not modify, remove or rely on them, and do not put your change inside such a guard. The machine is shared with other builds: pass `-j 6` to cargo, run the FULL test suite only once (at the end, with your change applied), and use targeted `cargo test -p <crate> --test <name>` runs while iterating. Keep the change small (a few lines, at most two sites) and make it look like an honest mistake, not sabotage.
 
 DELIVERABLES (all inside {wt}):
  - leave the source change applied (uncommitted) in the worktree and also write it to {wt}/patch.diff with `git diff -- <the source files you changed> > patch.diff` (library source only, no demo/test files in it);
